@@ -4,5 +4,5 @@ From FB Require Import Sem.Base Sem.ReadBuf Model.Fb Model.Tokio GenEq.Tac.
 From FB Require Gen.TokioAdaptersGen.
 Open Scope Z_scope.
 
-Lemma gen_eq : forall R1S RWS chk (R1 : AsyncReader R1S) (R2 : AsyncReader RWS) buf w, TokioAdaptersGen.achain_poll_read chk R1 R2 buf w = Tokio.achain_poll_read chk R1 R2 buf w.
+Lemma gen_eq : forall R1S RWS chk (R1 : AsyncReader R1S) (R2 : AsyncReader RWS) buf w, rb_wf buf -> TokioAdaptersGen.achain_poll_read chk R1 R2 buf w = Tokio.achain_poll_read chk R1 R2 buf w.
 Proof. gen_eq. Qed.
